@@ -118,6 +118,21 @@ impl NdarrayValue {
                     ));
                 }
             }
+            (NdarrayValue::String(arr), Value::ScalarString(v)) => {
+                arr[IxDyn(indices)] = v;
+            }
+            (NdarrayValue::String(arr), Value::Strings(v)) => {
+                if indices.len() == 2 {
+                    let mut view = arr.slice_mut(ndarray::s![indices[0], indices[1], ..]);
+                    for (i, val) in v.into_iter().enumerate() {
+                        view[i] = val;
+                    }
+                } else {
+                    return Err(anyhow::anyhow!(
+                        "Vector assignment with complex indices not implemented"
+                    ));
+                }
+            }
             _ => return Err(anyhow::anyhow!("Mismatched item type")),
         }
         Ok(())
